@@ -208,8 +208,9 @@ class Sized:
 
     def __enter__(self):
         for k in self.names:
-            self.old[k] = getattr(self.m, k)
-            setattr(self.m, k, self.v)
+            if hasattr(self.m, k):  # a replay on a tree without the constant: nothing to set
+                self.old[k] = getattr(self.m, k)
+                setattr(self.m, k, self.v)
         return self
 
     def __exit__(self, *a):
